@@ -1,4 +1,5 @@
 """Verification units: one function (or closure) of /repo under contract -> named obligations -> verdicts."""
+import ast as _ast
 import time
 import traceback
 import z3
@@ -32,18 +33,35 @@ def run_unit(eng, qualname, timeout_ms=10000, instance=None, discharge=True, cro
     res = UnitResult(qualname)
     res.instance = instance
     t0 = time.time()
-    try:
-        fi = eng.repo.func(qualname)
-    except KeyError:
-        res.undecided = 'function %s not found in /repo (anchor lost)' % qualname
-        return res
-    res.src_hash = fi.ast_hash()
-    eng.unit_func = fi
-    eng.unit_module = fi.module
+    ci = None
+    if c.extra.get('class_constants'):
+        # a contract over the class-level constants of a class (no code to execute): each clause is evaluated with the
+        # constants bound to the values the class body in /repo gives them
+        modname, clsname = qualname.rsplit('.', 1)
+        mod = eng.repo.modules.get(modname)
+        ci = mod.classes.get(clsname) if mod is not None else None
+        if ci is None:
+            res.undecided = 'class %s not found in /repo (anchor lost)' % qualname
+            return res
+        import hashlib as _hl
+        import ast as _ast2
+        res.src_hash = _hl.sha256(_ast2.dump(ci.node).encode()).hexdigest()[:16]
+        fi = None
+        eng.unit_func = None
+        eng.unit_module = mod
+    else:
+        try:
+            fi = eng.repo.func(qualname)
+        except KeyError:
+            res.undecided = 'function %s not found in /repo (anchor lost)' % qualname
+            return res
+        res.src_hash = fi.ast_hash()
+        eng.unit_func = fi
+        eng.unit_module = fi.module
     eng.contract = c
     eng.unit_name = qualname
     eng.unit_short = short(qualname) + ('[%s]' % instance_label(instance) if instance else '')
-    eng.unit_kind = 'generator' if fi.is_generator and not fi.is_inline_callbacks else 'function'
+    eng.unit_kind = 'generator' if fi is not None and fi.is_generator and not fi.is_inline_callbacks else 'function'
     work = [[]]
     obls = []
     npaths = 0
@@ -58,7 +76,10 @@ def run_unit(eng, qualname, timeout_ms=10000, instance=None, discharge=True, cro
             eng.path_id = npaths
             eng.callcount = {}
             try:
-                exec_path(eng, fi, c, instance)
+                if ci is not None:
+                    class_constants_path(eng, ci, c)
+                else:
+                    exec_path(eng, fi, c, instance)
             except PathEnd:
                 pass
             obls.extend(st.obls)
@@ -96,6 +117,23 @@ def run_unit(eng, qualname, timeout_ms=10000, instance=None, discharge=True, cro
         res.obls = [(o, None) for o in obls]
     res.time_s = time.time() - t0
     return res
+
+
+def class_constants_path(eng, ci, c):
+    fr = Frame(None)
+    for nm in ci.assigns:
+        try:
+            v = eng.eval_class_const(ci, nm)
+        except Unsupported:
+            continue
+        if isinstance(v, V):
+            fr.vars[nm] = v
+    eng.inputs = {}
+    eng.cover('cover.requires')
+    for name, e in c.ensures.items():
+        if not any(n.id in fr.vars for n in _ast.walk(_ast.parse(e, mode='eval')) if isinstance(n, _ast.Name)):
+            raise Unsupported('clause %s mentions no class-level constant of %s' % (name, ci.name))
+        eng.prove('const.' + name.split('[')[0], eng.pure_bool(e, fr), kind='post', props=c.clause_props(name), assume_after=False)
 
 
 def instance_label(inst):
